@@ -1,0 +1,188 @@
+//! Hooks for the external verification harness (cargo feature `verif_hooks`, off by default):
+//! read-only re-exports of crate-private verifier items and two prover-side adversary knobs
+//! (default = honest prover). Nothing here is compiled without the feature.
+#[cfg(not(feature = "std"))]
+use alloc::vec::Vec;
+use core::sync::atomic::{AtomicBool, Ordering};
+
+use anyhow::Result;
+use plonky2::field::extension::Extendable;
+use plonky2::field::polynomial::PolynomialValues;
+use plonky2::field::types::Field;
+use plonky2::hash::hash_types::RichField;
+use plonky2::plonk::config::GenericConfig;
+
+use crate::config::StarkConfig;
+use crate::constraint_consumer::ConstraintConsumer;
+use crate::cross_table_lookup::CtlCheckVars;
+use crate::lookup::{Column, Filter, GrandProductChallenge, Lookup, LookupCheckVars};
+use crate::proof::StarkProof;
+use crate::stark::Stark;
+
+/// `vanishing_poly::eval_l_0_and_l_last`
+pub fn eval_l_0_and_l_last<F: Field>(log_n: usize, x: F) -> (F, F) {
+    crate::vanishing_poly::eval_l_0_and_l_last(log_n, x)
+}
+
+/// `verifier::validate_proof_shape`
+pub fn validate_proof_shape<F, C, S, const D: usize>(
+    stark: &S,
+    proof: &StarkProof<F, C, D>,
+    public_inputs: &[F],
+    config: &StarkConfig,
+    num_ctl_helpers: usize,
+    num_ctl_zs: usize,
+) -> Result<()>
+where
+    F: RichField + Extendable<D>,
+    C: GenericConfig<D, F = F>,
+    S: Stark<F, D>,
+{
+    crate::verifier::validate_proof_shape_hook(
+        stark,
+        proof,
+        public_inputs,
+        config,
+        num_ctl_helpers,
+        num_ctl_zs,
+    )
+}
+
+/// `lookup::lookup_helper_columns` (the prover's helper and running-sum columns of one lookup)
+pub fn lookup_helper_columns<F: Field>(
+    lookup: &Lookup<F>,
+    trace_poly_values: &[PolynomialValues<F>],
+    challenge: F,
+    constraint_degree: usize,
+) -> Vec<PolynomialValues<F>> {
+    crate::lookup::lookup_helper_columns(lookup, trace_poly_values, challenge, constraint_degree)
+}
+
+/// `cross_table_lookup::partial_sums` (helper columns and the reverse running sum of one table)
+pub fn ctl_partial_sums<F: Field>(
+    trace: &[PolynomialValues<F>],
+    columns_filters: &[(&[Column<F>], &Filter<F>)],
+    challenge: GrandProductChallenge<F>,
+    constraint_degree: usize,
+) -> Vec<PolynomialValues<F>> {
+    crate::cross_table_lookup::partial_sums_hook(
+        trace,
+        columns_filters,
+        challenge,
+        constraint_degree,
+    )
+}
+
+/// `lookup::eval_packed_lookups_generic` at one extension point.
+pub fn eval_lookups_ext<F, S, const D: usize>(
+    stark: &S,
+    vars: &S::EvaluationFrame<F::Extension, F::Extension, D>,
+    aux_local: &[F::Extension],
+    aux_next: &[F::Extension],
+    challenges: &[F],
+    consumer: &mut ConstraintConsumer<F::Extension>,
+) where
+    F: RichField + Extendable<D>,
+    S: Stark<F, D>,
+{
+    let lookup_vars = LookupCheckVars {
+        local_values: aux_local.to_vec(),
+        next_values: aux_next.to_vec(),
+        challenges: challenges.to_vec(),
+    };
+    crate::lookup::eval_packed_lookups_generic::<F, F::Extension, F::Extension, S, D, D>(
+        stark,
+        &stark.lookups(),
+        vars,
+        lookup_vars,
+        consumer,
+    );
+}
+
+/// Builds a `CtlCheckVars` (its fields are crate-private) from explicit values.
+pub fn ctl_check_vars<'a, F, const D: usize>(
+    helper_columns: Vec<F::Extension>,
+    local_z: F::Extension,
+    next_z: F::Extension,
+    challenges: GrandProductChallenge<F>,
+    columns: Vec<&'a [Column<F>]>,
+    filter: Vec<Filter<F>>,
+) -> CtlCheckVars<'a, F, F::Extension, F::Extension, D>
+where
+    F: RichField + Extendable<D>,
+{
+    CtlCheckVars {
+        helper_columns,
+        local_z,
+        next_z,
+        challenges,
+        columns,
+        filter,
+    }
+}
+
+/// `cross_table_lookup::eval_cross_table_lookup_checks` at one extension point.
+pub fn eval_ctl_checks_ext<F, S, const D: usize>(
+    vars: &S::EvaluationFrame<F::Extension, F::Extension, D>,
+    ctl_vars: &[CtlCheckVars<F, F::Extension, F::Extension, D>],
+    consumer: &mut ConstraintConsumer<F::Extension>,
+    constraint_degree: usize,
+) where
+    F: RichField + Extendable<D>,
+    S: Stark<F, D>,
+{
+    crate::cross_table_lookup::eval_cross_table_lookup_checks::<F, F::Extension, F::Extension, S, D, D>(
+        vars,
+        ctl_vars,
+        consumer,
+        constraint_degree,
+    );
+}
+
+static LENIENT_QUOTIENT: AtomicBool = AtomicBool::new(false);
+
+/// Prover knob: when set, the quotient polynomial is truncated to `degree * quotient_degree_factor`
+/// coefficients instead of failing when the vanishing polynomial is not divisible by `Z_H`
+/// (an adversarial prover that commits to *some* quotient for an invalid trace).
+pub fn set_lenient_quotient_truncation(on: bool) {
+    LENIENT_QUOTIENT.store(on, Ordering::SeqCst);
+}
+
+pub(crate) fn lenient_quotient_truncation() -> bool {
+    LENIENT_QUOTIENT.load(Ordering::SeqCst)
+}
+
+#[cfg(feature = "std")]
+static AUX_TAMPER: std::sync::Mutex<Vec<(usize, usize, u64)>> = std::sync::Mutex::new(Vec::new());
+
+/// Prover knob: `(auxiliary column index, row, delta)` entries added to the auxiliary (lookup
+/// helper, lookup `Z`, CTL helper, CTL `Z`) columns after the honest computation and before
+/// they are committed. Empty = honest prover.
+#[cfg(feature = "std")]
+pub fn set_aux_tamper(entries: Vec<(usize, usize, u64)>) {
+    *AUX_TAMPER.lock().unwrap() = entries;
+}
+
+#[cfg(feature = "std")]
+pub(crate) fn tamper_aux<F: Field>(
+    aux: Option<Vec<PolynomialValues<F>>>,
+) -> Option<Vec<PolynomialValues<F>>> {
+    let entries = AUX_TAMPER.lock().unwrap().clone();
+    aux.map(|mut cols| {
+        for (c, r, d) in entries {
+            if let Some(col) = cols.get_mut(c) {
+                if let Some(v) = col.values.get_mut(r) {
+                    *v += F::from_noncanonical_u64(d);
+                }
+            }
+        }
+        cols
+    })
+}
+
+#[cfg(not(feature = "std"))]
+pub(crate) fn tamper_aux<F: Field>(
+    aux: Option<Vec<PolynomialValues<F>>>,
+) -> Option<Vec<PolynomialValues<F>>> {
+    aux
+}
